@@ -18,38 +18,110 @@ A history is {"init": [[pathId, contentId]...], "excl": k, "ops": [op...]}; an o
   faults whose abstract effect is computed by the abstraction function `abstract_cache`:
   ["trunc",n] keep n bytes  ["bytes",text] put latin-1 text there  ["jdel",path] remove a key
   ["jset",path,value] replace a value in the cache document
+  operations that are other ways of doing a modelled operation (same model words):
+  ["wb",p,c,k] write with the modification time set back 10^k seconds (cp -p, tar x, rsync -t) = w
+  ["ln",p,c] the path becomes a symbolic link to an OLD file with content c (re-pointing a link) = w
+  ["R",a,b] directory DIRS[a] is renamed over DIRS[b] (rm -r b; mv a b) = d for every file of b, r for
+        every file of a (the files keep inode, mtime and ctime)
+  operations the model does not see (no words): ["cfg",k] Configuration as the CLI sets it, bit 0
+        verbose (-v), bit 1 repository (configure_github_repository)   ["xf",name,kind] an extra file
+        (lock / temp / backup name) in the cache directory   ["cold",k,sign] every file of the cache
+        directory gets an mtime 10^k seconds in the past (sign 0) / future (sign 1)
+  ["cmv"] the cache directory is renamed away (= D; the renamed directory stays in the tree)
+  ["ks",mode,n] a scan in a forked child process that is stopped hard: mode 0 RLIMIT_FSIZE = n with
+        SIGXFSZ at its default action (the kernel kills the process when a file it writes reaches n
+        bytes), mode 1 the same limit with SIGXFSZ ignored (the write fails with EFBIG = disk full),
+        mode 2 SIGKILL immediately before its n-th modification of the file system.  What it leaves on
+        disk is abstracted like any other fault (a replaceCache of what `abstract_cache` sees).  An
+        interrupted FIRST scan that got as far as both marker files is, for the model, a scan (its
+        observation is a placeholder that is not compared) followed by that fault; a state of the
+        cache directory the model has no word for (one marker file only) makes the rest of the
+        history oracle-only (`oracle_only`, counted in the evidence).  A child that is not stopped
+        counts as an ordinary scan.  The scan that was stopped is not judged, the later ones are.
+  A history may carry "cfg": k, the configuration it starts in.
 """
 import contextlib
 import hashlib
 import io
 import json
 import os
+import resource
 import shutil
+import signal
 import tempfile
+import time
 
 import common  # noqa: F401  (puts VERIF_REPO or /repo first on sys.path)
 
-PATHS = ["a.py", "pkg/b.py", "pkg/c.js", "d.c", "notes.txt"]
+PATHS = ["a.py", "pkg/b.py", "pkg/c.js", "d.c", "notes.txt", "alt/b.py", "alt/c.js"]
 UNSUPPORTED = [4]
-NCONTENT = 4
-EXCL = [[], ["a.py"], ["pkg"], ["*.js"]]
-EXCL_IDS = [[], [0], [1, 2], [2]]
+DIRS = ["pkg", "alt"]
+DIR_FILES = [[1, 2], [5, 6]]          # same base names in the same order
+# contents: 0-3 plain, 4-5 several functions with the SAME name starting on one line, 6-9 a size
+# ladder (10^3 .. 10^6 bytes; the plain ones are ~10^2), functions in the middle of the filler
+NCONTENT = 10
+PLAIN = [0, 1, 2, 3]
+DENSE = [4, 5]
+SIZED = {6: 10 ** 3, 7: 10 ** 4, 8: 10 ** 5, 9: 10 ** 6}
+EXCL = [[], ["a.py"], ["pkg"], ["*.js"], ["*.js", "!alt/c.js"]]
+EXCL_IDS = [[], [0], [1, 2], [2, 6], [2]]
+CFGS = 4                              # bit 0 verbose, bit 1 repository
 ALIEN_H = 900
 ALIEN_E = 100000
 JUNK = [b"", b"   \n", b"not json", b"{", b"[]", b"{}", b"null", b"5", b'"s"', b"[1]", b"true",
         b"\xff\xfe\x00", b'{"version": "0.18.1"}', b'{"version": "0.18.1", "uuid": "u", "root": "/", "codebase": {}}',
         b'{"version": "0.18.1", "uuid": "u", "root": "/", "codebase": {"files": []}}']
+# names a crashed or concurrent run (of this or another tool) could leave in the cache directory:
+# every stem x every suffix; what killed scans really leave behind is added by C10 (`leftovers`)
+EXTRA_STEMS = ["codelimit", "codelimit.json", ".codelimit", "cache", ""]
+EXTRA_SUFFIXES = [".lock", ".tmp", ".new", ".bak", ".part", ".pid", "~", ".swp", ".old", ".1"]
+EXTRA_NAMES = [a + b for a in EXTRA_STEMS for b in EXTRA_SUFFIXES if a + b not in ("~",)]
+
+_CONTENT = {}
 
 
-def content(k):
-    if k == 3:
-        # the same text as content 2 behind two blank lines: every function sits two lines lower, so
-        # a checksum that ignores surrounding whitespace (seeded change C09-4) reuses stale locations
-        return b"\n\n" + content(2)
+def _plain(k):
     py = "def f%d():\n" % k + "".join("    x%d = %d\n" % (i, i) for i in range(k + 1))
     js = "function g%d() {\n" % k + "".join("  x%d = %d;\n" % (i, i) for i in range(k + 2)) + "}\n"
     c = "int h%d(int a) {\n" % k + "".join("  a = %d;\n" % i for i in range(k + 3)) + "  return a;\n}\n"
-    return (py + "\n" + js + "\n" + c).encode()
+    return py + "\n" + js + "\n" + c
+
+
+def _dense(k):
+    """k-2 functions of one name on one line (overloads / a minified bundle), a different name on the
+    same line, the same name again on another line"""
+    n = k - 2
+    py = "def f%d():\n" % k + "".join("    x%d = %d\n" % (i, i) for i in range(k + 1))
+    js = " ".join("function g(a) { return a + %d; }" % i for i in range(n)) + " function q(a) { return a; }\n"
+    js += "function g(a) {\n" + "".join("  a = %d;\n" % i for i in range(k)) + "  return a;\n}\n"
+    c = " ".join("int h(int a) { return a + %d; }" % i for i in range(n)) + " int r(int a) { return a; }\n"
+    c += "int h(long a) {\n" + "".join("  a = %d;\n" % i for i in range(k)) + "  return a;\n}\n"
+    return py + "\n" + js + "\n" + c
+
+
+def _filler(n):
+    line = "// " + "x" * 996 + "\n"
+    m = n % 1000
+    return line * (n // 1000) + ("// " + "y" * (m - 4) + "\n" if m >= 4 else "\n" * m)
+
+
+def content(k):
+    if k not in _CONTENT:
+        if k == 3:
+            # the same text as content 2 behind two blank lines: every function sits two lines lower, so
+            # a checksum that ignores surrounding whitespace (seeded change C09-4) reuses stale locations
+            b = b"\n\n" + content(2)
+        elif k in DENSE:
+            b = _dense(k).encode()
+        elif k in SIZED:
+            # functions in the middle of filler lines (<= 1000 bytes each) that every lexer used here
+            # reads as one or three tokens; the size is exact
+            rest = max(0, SIZED[k] - len(_plain(k)))
+            b = (_filler(rest // 2) + _plain(k) + _filler(rest - rest // 2)).encode()
+        else:
+            b = _plain(k).encode()
+        _CONTENT[k] = b
+    return _CONTENT[k]
 
 
 def md5(b):
@@ -82,9 +154,12 @@ def cl():
         from codelimit.common.Configuration import Configuration
         from codelimit.common.report.ReportFormat import ReportFormat
         from codelimit.common.report.Report import Report
-        _cl.update(Path=Path, typer=typer, scanmod=scanmod, report_command=report_command,
+        from codelimit.common.GithubRepository import GithubRepository
+        _cl.update(GithubRepository=GithubRepository,Path=Path, typer=typer, scanmod=scanmod, report_command=report_command,
                    findings_command=findings_command, Scanner=Scanner, Configuration=Configuration,
                    ReportFormat=ReportFormat, CUR=Report.VERSION)
+        import logging
+        logging.getLogger().addHandler(logging.NullHandler())   # logging.info must not call basicConfig
         orig = Scanner._analyze_file
 
         def recording(path, rel_path, checksum, lexer):
@@ -115,10 +190,20 @@ def quiet():
         C.print, L.refresh, L.start, L.stop = saved
 
 
-def real_scan(root, excl_k):
-    """-> (exception text or None, analysed relative paths)"""
+def real_scan(root, excl_k, cfg=0):
+    """-> (exception text or None, analysed relative paths); cfg: Configuration as `codelimit scan`
+    sets it up: bit 0 = -v / `verbose: true` (Configuration.verbose and the root logger at INFO, as
+    setup_logging does), bit 1 = a GitHub checkout (Configuration.repository)"""
+    import logging
     m = cl()
-    m["Configuration"].exclude = list(EXCL[excl_k])
+    C = m["Configuration"]
+    C.exclude = list(EXCL[excl_k])
+    C.verbose = bool(cfg & 1)
+    C.repository = m["GithubRepository"]("owner", "name", "main") if cfg & 2 else None
+    root_logger = logging.getLogger()
+    level = root_logger.level
+    if cfg & 1:
+        root_logger.setLevel(logging.INFO)
     del LOG[:]
     err = None
     try:
@@ -129,8 +214,82 @@ def real_scan(root, excl_k):
             raise
         err = "%s: %s" % (type(e).__name__, str(e)[:200])
     finally:
-        m["Configuration"].exclude = []
+        C.exclude = []
+        C.verbose = False
+        C.repository = None
+        root_logger.setLevel(level)
     return err, list(LOG)
+
+
+_MUTATING = ("os.mkdir", "os.remove", "os.rename", "os.rmdir", "os.truncate", "os.link", "os.symlink",
+             "os.chmod", "os.utime", "os.chown", "shutil.move", "shutil.rmtree", "shutil.copyfile",
+             "tempfile.mkstemp", "tempfile.mkdtemp")
+
+
+def _mutation_hook(root, n, counter):
+    """audit hook: SIGKILL to the own process immediately before the n-th event that modifies the file
+    system below root (open for writing, mkdir, remove, rename, ...); counter[0] counts them"""
+    wr = os.O_WRONLY | os.O_RDWR | os.O_CREAT | os.O_TRUNC | os.O_APPEND
+
+    def hook(event, args):
+        if event == "open":
+            path, mode, flags = (list(args) + [None, None, None])[:3]
+            if not ((isinstance(mode, str) and any(ch in mode for ch in "wax+")) or (isinstance(flags, int) and flags & wr)):
+                return
+        elif event not in _MUTATING:
+            return
+        else:
+            path = args[0] if args else None
+        try:
+            where = os.fspath(path)
+            if isinstance(where, bytes):
+                where = where.decode("utf-8", "replace")
+        except TypeError:
+            return
+        if not os.path.abspath(where).startswith(root):
+            return
+        if counter[0] == n:
+            os.kill(os.getpid(), signal.SIGKILL)
+        counter[0] += 1
+    return hook
+
+
+def interrupted_scan(root, excl_k, cfg, mode, n):
+    """a scan in a forked child that is stopped hard (see the module text, op "ks")
+    -> (status, exception text, analysed paths, mutations counted), status 'killed' | 'completed' | 'raised'"""
+    import sys
+    cl()
+    r, w = os.pipe()
+    pid = os.fork()
+    if pid == 0:
+        code = 0
+        try:
+            os.close(r)
+            counter = [0]
+            if mode in (0, 1):
+                signal.signal(signal.SIGXFSZ, signal.SIG_DFL if mode == 0 else signal.SIG_IGN)
+                resource.setrlimit(resource.RLIMIT_FSIZE, (n, n))
+            else:
+                sys.addaudithook(_mutation_hook(os.path.abspath(root), n, counter))
+            err, log = real_scan(root, excl_k, cfg)
+            os.write(w, json.dumps([err, log, counter[0]]).encode())
+        except BaseException:  # noqa: BLE001
+            code = 3
+        finally:
+            os._exit(code)
+    os.close(w)
+    data = b""
+    while True:
+        chunk = os.read(r, 65536)
+        if not chunk:
+            break
+        data += chunk
+    os.close(r)
+    _, status = os.waitpid(pid, 0)
+    if os.WIFSIGNALED(status) or not data:
+        return ("killed", None, [], None)
+    err, log, count = json.loads(data.decode())
+    return ("raised" if err else "completed", err, log, count)
 
 
 def cache_paths(root):
@@ -141,7 +300,7 @@ def cache_paths(root):
 def canon(doc):
     """a report document up to uuid / timestamp / root, with dict-order artefacts removed"""
     cb = doc["codebase"]
-    return {"version": doc.get("version"),
+    return {"version": doc.get("version"), "repository": doc.get("repository"),
             "totals": cb["totals"],
             "tree": {k: {"entries": sorted(v["entries"]), "profile": v["profile"]} for k, v in cb["tree"].items()},
             "files": cb["files"]}
@@ -157,9 +316,11 @@ _FRESH = {}
 _PRE = {}
 
 
-def fresh_report(files, excl_k):
-    """the oracle: a from-scratch scan of a copy of the tree (memoised per tree and exclusions)"""
-    key = (tuple(sorted(files.items())), excl_k)
+def fresh_report(files, excl_k, cfg=0):
+    """the oracle: a from-scratch scan of a copy of the tree made of regular files (memoised per tree,
+    exclusions and repository setting; verbose is not supposed to change a report and is left off)"""
+    cfg &= 2
+    key = (tuple(sorted(files.items())), excl_k, cfg)
     if key not in _FRESH:
         d = tempfile.mkdtemp(prefix="clfresh_")
         try:
@@ -168,7 +329,7 @@ def fresh_report(files, excl_k):
                 os.makedirs(os.path.dirname(fp), exist_ok=True)
                 with open(fp, "wb") as f:
                     f.write(content(c))
-            err, _ = real_scan(d, excl_k)
+            err, _ = real_scan(d, excl_k, cfg)
             if err:
                 _FRESH[key] = {"error": err}
             else:
@@ -178,18 +339,41 @@ def fresh_report(files, excl_k):
     return _FRESH[key]
 
 
+# old files with every content, outside every scanned tree: targets of symbolic links. Created once
+# (before the pool forks), so their ctime is older than every cache file written later.
+_STORE = {}
+
+
+def store_path(c):
+    if not _STORE:
+        import atexit
+        d = tempfile.mkdtemp(prefix="clstore_")
+        for k in range(NCONTENT):
+            with open(os.path.join(d, "content%d" % k), "wb") as f:
+                f.write(content(k))
+            old = time.time() - 10 ** 6 - k
+            os.utime(os.path.join(d, "content%d" % k), (old, old))
+        _STORE.update(dir=d, pid=os.getpid())
+        atexit.register(lambda: os.getpid() == _STORE.get("pid") and shutil.rmtree(d, ignore_errors=True))
+    return os.path.join(_STORE["dir"], "content%d" % c)
+
+
 def pre():
     """real entry data for every (path, content) pair, from fresh scans"""
     if not _PRE:
+        store_path(0)
         for c in range(NCONTENT):
             rep = fresh_report({p: c for p in range(len(PATHS))}, 0)
             for p, name in enumerate(PATHS):
                 if name in rep["files"]:
                     _PRE[(p, c)] = entry_data(rep["files"][name])
         per_path = {}
+        inv = {}
         for (p, c), d in _PRE.items():
             per_path.setdefault(p, set()).add(d)
+            inv.setdefault(d, []).append((p, c))
         _PRE["distinct"] = all(len(s) == NCONTENT for s in per_path.values())
+        _PRE["inv"] = inv
     return _PRE
 
 
@@ -211,17 +395,15 @@ class Aliens:
     def eid(self, pid, e):
         """pair(p, c) when the entry is the real analysis of (p, c) (own path first); pair + 1000 j when
         it is such an analysis altered by ["ca", .., de = 1000 j]; a fresh number otherwise"""
-        P = pre()
+        inv = pre()["inv"]
         for j in range(0, 4):
             data = entry_data(unshift(e, 1000 * j))
             if data is None:
                 break
-            for c in range(NCONTENT):
-                if P.get((pid, c)) == data:
-                    return pair(pid, c) + 1000 * j
-            for (k, d) in P.items():
-                if k != "distinct" and d == data:
-                    return pair(*k) + 1000 * j
+            hits = inv.get(data)
+            if hits:
+                own = [k for k in hits if k[0] == pid]
+                return pair(*(own[0] if own else hits[0])) + 1000 * j
         data = entry_data(e)
         if data not in self.e:
             self.e.append(data)
@@ -292,7 +474,8 @@ def abstract_cache(data, aliens, cur):
             return ("j",)
         if "repository" in d:
             r = d["repository"]
-            if not isinstance(r, dict) or sorted(r) != ["branch", "name", "owner"]:
+            # a GithubRepository: owner and name, optionally branch and tag (as Model/CacheDoc.lean)
+            if not isinstance(r, dict) or not {"owner", "name"} <= set(r) <= {"owner", "name", "branch", "tag"}:
                 return ("j",)
         files = d["codebase"]["files"]
         if not isinstance(d["codebase"], dict) or not isinstance(files, dict):
@@ -344,11 +527,14 @@ def jget(doc, path):
 # ------------------------------------------------------------------ the world
 
 class World:
-    def __init__(self, init, excl_k):
+    def __init__(self, init, excl_k, cfg=0):
         self.cur = cl()["CUR"]
         self.root = tempfile.mkdtemp(prefix="clw_")
         self.files = {}
         self.excl = excl_k
+        self.cfg = cfg
+        self.oracle_only = False   # set when the disk is in a state the model has no word for
+        self.moved = 0
         self.snaps = []
         self.aliens = Aliens()
         self.words = []     # the model's view of the history so far
@@ -369,6 +555,8 @@ class World:
     def _write(self, p, c):
         fp = self._fp(p)
         os.makedirs(os.path.dirname(fp), exist_ok=True)
+        if os.path.islink(fp):
+            os.unlink(fp)          # never write through a link into the store of old files
         with open(fp, "wb") as f:
             f.write(content(c))
         self.files[p] = c
@@ -377,6 +565,13 @@ class World:
         if p in self.files:
             os.unlink(self._fp(p))
             del self.files[p]
+
+    def _touch(self, p, delta):
+        fp = self._fp(p)
+        if os.path.islink(fp):     # keep the store's times: the link becomes a regular file first
+            self._write(p, self.files[p])
+        st = os.stat(fp)
+        os.utime(fp, (st.st_atime + delta, st.st_mtime + delta))
 
     # -- cache
     def cache_bytes(self):
@@ -430,10 +625,10 @@ class World:
         cd = None
         if os.path.isdir(d):
             cd = {n: open(os.path.join(d, n), "rb").read() for n in os.listdir(d)}
-        return (dict(self.files), self.excl, cd, len(self.snaps), len(self.words), self.forged)
+        return (dict(self.files), self.excl, cd, len(self.snaps), len(self.words), self.forged, self.cfg, self.oracle_only)
 
     def restore(self, snap):
-        files, excl, cd, nsn, nw, self.forged = snap
+        files, excl, cd, nsn, nw, self.forged, self.cfg, self.oracle_only = snap
         for p in list(self.files):
             if files.get(p) != self.files[p]:
                 self._delete(p)
@@ -468,8 +663,59 @@ class World:
                 self.files[b] = self.files.pop(a)
         elif k == "t":
             if op[1] in self.files:
-                st = os.stat(self._fp(op[1]))
-                os.utime(self._fp(op[1]), (st.st_atime + 100, st.st_mtime + 100))
+                self._touch(op[1], 100)
+        elif k == "wb":
+            self._write(op[1], op[2])
+            old = time.time() - 10 ** op[3]
+            os.utime(self._fp(op[1]), (old, old))
+            w = ["w", str(op[1]), str(op[2])]
+        elif k == "ln":
+            fp = self._fp(op[1])
+            os.makedirs(os.path.dirname(fp), exist_ok=True)
+            os.symlink(store_path(op[2]), fp + ".lnk")
+            os.replace(fp + ".lnk", fp)
+            self.files[op[1]] = op[2]
+            w = ["w", str(op[1]), str(op[2])]
+        elif k == "R":
+            a, b = op[1], op[2]
+            da, db = os.path.join(self.root, DIRS[a]), os.path.join(self.root, DIRS[b])
+            w = []
+            if a != b and os.path.isdir(da):
+                for pb in DIR_FILES[b]:
+                    if pb in self.files:
+                        del self.files[pb]
+                        w += ["d", str(pb)]
+                shutil.rmtree(db, ignore_errors=True)
+                os.rename(da, db)
+                for pa, pb in zip(DIR_FILES[a], DIR_FILES[b]):
+                    if pa in self.files:
+                        self.files[pb] = self.files.pop(pa)
+                        w += ["r", str(pa), str(pb)]
+        elif k == "cfg":
+            self.cfg = op[1] % CFGS
+            w = []
+        elif k == "xf":
+            d, _ = cache_paths(self.root)
+            w = []
+            name = os.path.basename(str(op[1]))
+            if os.path.isdir(d) and name and name not in ("codelimit.json", "CACHEDIR.TAG", ".gitignore", ".", ".."):
+                with open(os.path.join(d, name), "wb") as f:
+                    f.write([b"", b"12345\n", b"{", content(0)][op[2] % 4])
+        elif k == "cold":
+            d, _ = cache_paths(self.root)
+            w = []
+            if os.path.isdir(d):
+                when = time.time() + (10 ** op[1] if op[2] else -(10 ** op[1]))
+                for n in os.listdir(d) + ["."]:
+                    os.utime(os.path.join(d, n), (when, when))
+        elif k == "cmv":
+            d, _ = cache_paths(self.root)
+            if os.path.isdir(d):
+                self.moved += 1
+                os.rename(d, d + ".%d" % self.moved)
+            w = ["D"]
+        elif k == "ks":
+            return self._interrupted(op[1], op[2])
         elif k == "x":
             a, b = op[1], op[2]
             if a in self.files and b in self.files:
@@ -536,7 +782,9 @@ class World:
         elif k == "fmt":
             w = cache_words(self.abstract()) if self._edit_doc(lambda doc: None) else []
         elif k == "co":
-            if op[1] < len(self.snaps):
+            if op[1] < len(self.snaps) and self.snaps[op[1]] is None:
+                w = []          # the report of an interrupted scan: never on disk, nothing to restore
+            elif op[1] < len(self.snaps):
                 self.put_cache(self.snaps[op[1]])
             else:
                 w = []
@@ -586,19 +834,54 @@ class World:
             raise ValueError("unknown op %r" % (op,))
         self.words += [str(x) for x in op] if w is None else w
         if k in ("cj", "ca", "cr", "co", "fmt", "dup", "k", "trunc", "bytes", "jdel", "jset") and not self.forged:
-            a = self.abstract()
-            if a[0] == "d" and a[1] == 1 and any(h >= ALIEN_H or e != pair(p, h) for p, h, e in a[2]):
-                self.forged = True     # side condition Op.Allowed violated: outside the property
+            self._forged_check()
         return None
 
-    def _scan(self):
-        pre_cache = self.cache_bytes()
-        err, analysed = real_scan(self.root, self.excl)
+    def _forged_check(self):
+        a = self.abstract()
+        if a[0] == "d" and a[1] == 1 and any(h >= ALIEN_H or e != pair(p, h) for p, h, e in a[2]):
+            self.forged = True     # side condition Op.Allowed violated: outside the property
+
+    def _interrupted(self, mode, n):
+        """["ks", mode, n]: what the stopped child left on disk becomes a fault of the model"""
+        b0, ds0 = self.cache_bytes(), self.dir_state()
+        status, err, analysed, _ = interrupted_scan(self.root, self.excl, self.cfg, mode, n)
+        if status == "completed" or (status == "raised" and "File too large" not in err and "Errno 27" not in err):
+            # not stopped (or failed for a reason of its own): an ordinary scan
+            return self._scan(ran=(b0, err, analysed))
+        b1, ds1 = self.cache_bytes(), self.dir_state()
+        if b1 == b0 and ds1 == ds0:
+            return None
+        a1 = self.abstract()
+        if ds1 == ds0:
+            self.words += cache_words(a1)
+        elif ds0 == 0 and ds1 == 1:
+            self.words += ["cj", "0", "cm"] if a1[0] == "m" else cache_words(a1)
+        elif ds0 == 0 and ds1 == 2:
+            # an interrupted first scan got as far as the marker files: for the model a scan (whose
+            # report nobody saw: a placeholder among the observations) followed by the fault
+            self.words += ["s"] + cache_words(a1)
+            self.snaps.append(None)
+            self._forged_check()
+            return {"phantom": True}
+        else:
+            self.oracle_only = True
+        self._forged_check()
+        return None
+
+    def _scan(self, ran=None):
+        if ran is None:
+            pre_cache = self.cache_bytes()
+            err, analysed = real_scan(self.root, self.excl, self.cfg)
+        else:
+            pre_cache, err, analysed = ran
         self.words.append("s")
         post = self.cache_bytes()
         self.snaps.append(post)
         obs = {"raised": err, "analysed": analysed, "pre_cache": pre_cache, "post_cache": post,
-               "dir": self.dir_state(), "files": dict(self.files), "excl": self.excl}
+               "dir": self.dir_state(), "files": dict(self.files), "excl": self.excl, "cfg": self.cfg}
+        if obs["dir"] == 3:
+            self.oracle_only = True
         return obs
 
     def request(self):
@@ -608,8 +891,8 @@ class World:
         return " ".join(hdr + self.words)
 
 
-def new_world(init, excl_k):
-    w = World(init, excl_k)
+def new_world(init, excl_k, cfg=0):
+    w = World(init, excl_k, cfg)
     w._excl0 = excl_k
     return w
 
@@ -678,9 +961,9 @@ def _check_scan(world, obs):
         rep = canon(doc)
     except Exception as e:  # noqa: BLE001
         return ["the cache left behind is not a complete report document: %r" % (e,)]
-    fr = fresh_report(obs["files"], obs["excl"])
+    fr = fresh_report(obs["files"], obs["excl"], obs.get("cfg", 0))
     if rep != fr:
-        diff = [k for k in ("version", "totals", "tree", "files") if rep.get(k) != fr.get(k)]
+        diff = [k for k in ("version", "repository", "totals", "tree", "files") if rep.get(k) != fr.get(k)]
         fails.append("report differs from the fresh scan in %s: %s vs fresh %s" % (
             diff, json.dumps(rep.get("files"), sort_keys=True)[:600], json.dumps(fr.get("files"), sort_keys=True)[:600]))
     if rep["version"] != world.cur:
@@ -721,21 +1004,29 @@ def _check_scan(world, obs):
     return fails
 
 
+def observe(w, obs, real, fails):
+    """book-keeping for the result of World.apply"""
+    if obs is None:
+        return
+    if obs.get("phantom"):
+        real.append(None)
+        return
+    fails += [(len(real), f) for f in check_scan(w, obs)]
+    real.append(abstract_obs(w, obs))
+
+
 def run_history(hist, want_model=True):
     """replays one history on a fresh world -> dict(request, real=[abstract obs], fails=[(scan idx, text)])"""
-    w = new_world([tuple(x) for x in hist["init"]], hist["excl"])
+    w = new_world([tuple(x) for x in hist["init"]], hist["excl"], hist.get("cfg", 0))
     real, fails = [], []
     try:
         for op in hist["ops"]:
-            obs = w.apply(op)
-            if obs is not None:
-                for f in check_scan(w, obs):
-                    fails.append((len(real), f))
-                real.append(abstract_obs(w, obs))
+            observe(w, w.apply(op), real, fails)
         for f in w.contract_fails:
             fails.append((len(real), f))
         final = w.abstract()
-        return {"request": w.request(), "real": real, "fails": fails, "final": final, "forged": w.forged}
+        return {"request": w.request(), "real": real, "fails": fails, "final": final, "forged": w.forged,
+                "oracle_only": w.oracle_only}
     finally:
         w.close()
 
@@ -749,6 +1040,8 @@ def compare_with_model(rec, reply):
     if len(scans) != len(rec["real"]):
         return "model has %d scans, real %d" % (len(scans), len(rec["real"]))
     for i, (m, r) in enumerate(zip(scans, rec["real"])):
+        if r is None:
+            continue        # the model's stand-in for an interrupted first scan
         if tuple(m) != tuple(r):
             return "scan %d: model %s real %s" % (i, m, r)
     f = rec.get("final")
@@ -765,28 +1058,24 @@ def compare_with_model(rec, reply):
 def run_variants(task):
     """(init, excl, prefix ops, [variant ops...]) -> records; the prefix is executed once, every
     variant starts from the state after the prefix (snapshot / restore)"""
-    init, excl, prefix, variants = task
-    w = new_world([tuple(x) for x in init], excl)
+    init, excl, prefix, variants = task[:4]
+    cfg = task[4] if len(task) > 4 else 0
+    w = new_world([tuple(x) for x in init], excl, cfg)
     out = []
     try:
         base_real, base_fails = [], []
         for op in prefix:
-            obs = w.apply(op)
-            if obs is not None:
-                base_fails += [(len(base_real), f) for f in check_scan(w, obs)]
-                base_real.append(abstract_obs(w, obs))
+            observe(w, w.apply(op), base_real, base_fails)
         snap = w.snapshot()
         for var in variants:
             real, fails = list(base_real), list(base_fails)
             del w.contract_fails[:]
             for op in var:
-                obs = w.apply(op)
-                if obs is not None:
-                    fails += [(len(real), f) for f in check_scan(w, obs)]
-                    real.append(abstract_obs(w, obs))
+                observe(w, w.apply(op), real, fails)
             fails += [(len(real), f) for f in w.contract_fails]
-            out.append({"input": {"init": [list(x) for x in init], "excl": excl, "ops": list(prefix) + list(var)},
-                        "request": w.request(), "real": real, "fails": fails, "final": w.abstract(), "forged": w.forged})
+            out.append({"input": {"init": [list(x) for x in init], "excl": excl, "cfg": cfg, "ops": list(prefix) + list(var)},
+                        "request": w.request(), "real": real, "fails": fails, "final": w.abstract(), "forged": w.forged,
+                        "oracle_only": w.oracle_only})
             w.restore(snap)
     finally:
         w.close()
@@ -802,19 +1091,19 @@ def run_dfs(task):
     try:
         real = []
         for op in prefix:
-            obs = w.apply(op)
-            if obs is not None:
-                real.append(abstract_obs(w, obs))
+            observe(w, w.apply(op), real, [])
 
         def visit(op, path, d):
             snap = w.snapshot()
             obs = w.apply(op)
             path = path + [op]
             if obs is not None:
-                fails = [(len(real), f) for f in check_scan(w, obs)]
-                real.append(abstract_obs(w, obs))
+                fails = []
+                observe(w, obs, real, fails)
+            if obs is not None and real[-1] is not None:
                 out.append({"input": {"init": [list(x) for x in init], "excl": excl, "ops": list(prefix) + path},
-                            "request": w.request(), "real": list(real), "fails": fails, "final": None, "forged": w.forged})
+                            "request": w.request(), "real": list(real), "fails": fails, "final": None, "forged": w.forged,
+                            "oracle_only": w.oracle_only})
             if d > 1:
                 for nxt in (alphabet if d > 2 else [["s"]]):
                     visit(nxt, path, d - 1)
@@ -845,6 +1134,12 @@ def judge(records):
     replies = common.run_driver_sharded([r["request"] for r in records])
     dis, fails = [], []
     for r, reply in zip(records, replies):
+        if r.get("oracle_only"):
+            # the disk went through a state the model has no word for (see op "ks"): oracles only
+            for (i, f) in r["fails"]:
+                fails.append({"input": r["input"], "observed": "scan %d: %s" % (i, f),
+                              "required": "scan completes, report == fresh scan, reuse only of unchanged files from a current-version cache, usable cache left"})
+            continue
         if r.get("forged"):
             # a current-version cache with a forged entry was put in place: the model must still agree
             # with the program (it does reuse it), but the property does not speak about this history
